@@ -1,6 +1,7 @@
 package checks
 
 import (
+	"sync/atomic"
 	"encoding/json"
 	"fmt"
 	"math/rand/v2"
@@ -17,6 +18,7 @@ import (
 	"verif/internal/dec"
 	"verif/internal/ev"
 	"verif/internal/gx"
+	"verif/internal/jmut"
 	"verif/internal/walk"
 )
 
@@ -515,7 +517,14 @@ func runC20(c *Ctx) {
 			c20payment(c, rng)
 		}
 	})
+	// the monitor must have seen what it is there for: a run without a single
+	// payment carrying a merged tax summary decides nothing about that clause
+	if c20paymentsWithTax.Load() == 0 {
+		c.R.Inconclusive("no-payment-with-tax-summary-observed")
+	}
 }
+
+var c20paymentsWithTax atomic.Int64
 
 func c20pair(c *Ctx, sa, sb, sc *c20summary) {
 	A, B, C := sa.t, sb.t, sc.t
@@ -687,6 +696,7 @@ func sharedNodes(res *tax.Total, ops ...*tax.Total) string {
 
 // ---- payments ---------------------------------------------------------------
 
+// (runC20 checks after its loops that payments with tax summaries were really observed)
 func c20payment(c *Ctx, rng *rand.Rand) {
 	curs := []struct {
 		code string
@@ -746,13 +756,13 @@ func c20payment(c *Ctx, rng *rand.Rand) {
 		}
 		if rng.IntN(2) == 0 {
 			// a document with a tax summary given by bases and percentages
-			ts := &sumJSON{}
+			ts := &sumJSON{Sum: "0.00"}
 			ncat := 1 + rng.IntN(2)
 			for ci := 0; ci < ncat; ci++ {
-				cat := sumCatJSON{Code: []string{"VAT", "IRPF", "IGIC"}[ci+rng.IntN(2)]}
+				cat := sumCatJSON{Code: []string{"VAT", "IRPF", "IGIC"}[ci+rng.IntN(2)], Amount: "0.00"}
 				cat.Retained = cat.Code == "IRPF"
 				for ri := 0; ri < 1+rng.IntN(2); ri++ {
-					r := sumRateJSON{Base: dec.New(rng.Int64N(1_000_000)-100_000, pc.dec).String()}
+					r := sumRateJSON{Base: dec.New(rng.Int64N(1_000_000)-100_000, pc.dec).String(), Amount: "0.00"}
 					if rng.IntN(6) != 0 {
 						p := []string{"21.0%", "10.0%", "4.0%", "15%", "7.0%", "0.0%"}[rng.IntN(6)]
 						r.Percent = &p
@@ -812,7 +822,7 @@ func c20payment(c *Ctx, rng *rand.Rand) {
 	in, _ := json.Marshal(doc)
 	var out []byte
 	var err error
-	if p, _ := Safely(func() {
+	if p, pst := Safely(func() {
 		var env interface{}
 		e, e2 := gx.EnvelopDoc(in)
 		err = e2
@@ -822,11 +832,13 @@ func c20payment(c *Ctx, rng *rand.Rand) {
 		}
 	}); p != nil {
 		c.R.Count("payment_panics", 1)
+		c.R.Fail("payment:panic:"+panicSite(pst), fmt.Sprintf("calculating a well-formed payment panicked: %v", p), map[string]any{"doc": json.RawMessage(in)})
 		c.R.Case(false, 0)
 		return
 	}
 	if err != nil {
 		c.R.Count("payment_calc_errors", 1)
+		c.R.Count("payment_calc_error:"+trunc(gx.ErrKey(err)+":"+err.Error()), 1)
 		c.R.Case(false, 0)
 		return
 	}
@@ -927,8 +939,53 @@ func c20payment(c *Ctx, rng *rand.Rand) {
 			c.R.Fail("payment:tax:"+comp, fmt.Sprintf("payment tax summary is not the merge of its lines' summaries: %s; got %s", det, J(got.Doc.Tax)), map[string]any{"doc": json.RawMessage(in)})
 		}
 		c.R.Count("payments_with_tax", 1)
+		c20paymentsWithTax.Add(1)
 	} else if got.Doc.Tax != nil {
 		c.R.Fail("payment:tax-unexpected", "payment has a tax summary but no line document has one", map[string]any{"doc": json.RawMessage(in)})
+	}
+	// the calculated payment, edited and calculated again: nothing of the earlier
+	// summary may survive (the lines' document summaries removed; the taxed lines removed)
+	if taxWant != nil {
+		if n, err := jmut.Parse(out); err == nil && n.Get("doc") != nil {
+			for _, mode := range []string{"document-tax-removed", "taxed-lines-removed"} {
+				d := n.Get("doc").Clone()
+				ls := d.Get("lines")
+				if ls == nil || ls.K != jmut.Arr {
+					continue
+				}
+				var keep []*jmut.Node
+				for _, l := range ls.A {
+					dn := l.Get("document")
+					taxed := dn != nil && dn.K == jmut.Obj && dn.Get("tax") != nil
+					if mode == "document-tax-removed" {
+						if taxed {
+							dn.Del("tax")
+						}
+						keep = append(keep, l)
+					} else if !taxed {
+						keep = append(keep, l)
+					}
+				}
+				if len(keep) == 0 {
+					continue
+				}
+				ls.A = keep
+				var out2 []byte
+				var err2 error
+				if p, _ := Safely(func() {
+					e, e2 := gx.EnvelopDoc(d.Bytes())
+					if err2 = e2; e2 == nil {
+						out2, err2 = json.Marshal(e)
+					}
+				}); p != nil || err2 != nil {
+					continue
+				}
+				c.R.Count("payments_recalculated_after:"+mode, 1)
+				if n2, err := jmut.Parse(out2); err == nil && n2.Get("doc") != nil && n2.Get("doc").Get("tax") != nil {
+					c.R.Fail("payment:tax-stale:"+mode, fmt.Sprintf("recalculated payment (%s) still presents the tax summary %s although no line document has one", mode, n2.Get("doc").Get("tax").Bytes()), map[string]any{"doc": json.RawMessage(d.Bytes())})
+				}
+			}
+		}
 	}
 	c.R.Case(len(exps) > 1 || taxWant != nil, ev.HashBytes(in))
 	c.R.Count("payments", 1)
